@@ -173,9 +173,6 @@ theorem decimalU32_toDec (v : Nat) (rest : List Byte) (hv : v < pow32) (hs : Sto
 
 /-! ### separators -/
 
-/-- the list does not start with a space or tab (so that `space1` stops right before it) -/
-def NoLeadSp (l : List Byte) : Prop := ∀ b r, l = b :: r → isSpTab b = false
-
 theorem space1_one (rest : List Byte) (h : NoLeadSp rest) : space1 (32 :: rest) = some rest := by
   simp only [space1, isSpTab]
   cases rest with
@@ -225,14 +222,6 @@ theorem noLeadSp_toDec (v : Nat) (rest : List Byte) : NoLeadSp (toDec v ++ rest)
 
 theorem tag_cons_ne (t0 b : Byte) (ts r : List Byte) (h : t0 ≠ b) : tag (t0 :: ts) (b :: r) = none := by
   simp [tag, h]
-
-/-- names as they occur in well-formed files: no `\n`, not ending in `\r`, not starting with a blank
-(the separator before a name is `space1`, which would swallow it), valid UTF-8 -/
-structure NameOk (name : List Byte) : Prop where
-  noNl : (10 : Byte) ∉ name
-  noCrEnd : name.getLast? ≠ some 13
-  noLead : NoLeadSp name
-  utf8 : validUtf8 name = true
 
 /-! ### the line parsers on rendered records -/
 
@@ -310,19 +299,6 @@ theorem funcLine_func (m : Bool) (addr size psize : Nat) (name : List Byte) (ha 
   rw [space1_one _ hn]
 
 /-! ### the classification cascade on rendered records -/
-
-/-- field bounds and name conditions of a well-formed record -/
-def Rec.ok : Rec → Prop
-  | .info rest => (10 : Byte) ∉ rest ∧ (tINFO_ ++ rest).getLast? ≠ some 13
-  | .file idx name => idx < pow32 ∧ NameOk name
-  | .origin idx name => idx < pow32 ∧ NameOk name
-  | .pub _ addr psize name => addr < pow64 ∧ psize < pow32 ∧ NameOk name
-  | .func _ addr size psize name => addr < pow32 ∧ size < pow32 ∧ psize < pow32 ∧ NameOk name
-  | .line addr size ln fl => addr < pow32 ∧ size < pow32 ∧ ln < pow32 ∧ fl < pow32
-  | .inline depth callLine callFile org r0 ranges =>
-    depth < pow32 ∧ callLine < pow32 ∧ callFile < pow32 ∧ org < pow32 ∧
-      ∀ r ∈ r0 :: ranges, r.1 < pow32 ∧ r.2 < pow32
-  | .stack rest => (10 : Byte) ∉ rest ∧ (tSTACK_ ++ rest).getLast? ≠ some 13
 
 /-- what `process_line` does with a record, as a `LineClass` -/
 def Rec.cls : Rec → LineClass
